@@ -384,7 +384,22 @@ func (m *Monitors) onTaskStart(t *Task) {
 	}
 	m.queueSyncCursor[fmt.Sprint(t.Item)] = t.Inc.Ctx.Inf.Job.Cursor()
 }
-func (m *Monitors) onTaskDone(t *Task) {}
+// onTaskDone: whatever a reconcile read from the informer caches is still what the informers stored there.
+func (m *Monitors) onTaskDone(t *Task) {
+	if m.w.Inc == nil {
+		return
+	}
+	prop := map[Kind]string{KJob: "C11", KJobConfig: "C15", KPod: "C09"}
+	for _, inf := range m.w.Inc.Ctx.Inf.All() {
+		m.Evals["cache_integrity"]++
+		for _, d := range inf.Mutated() {
+			if len(d) > 900 {
+				d = d[:900] + "..."
+			}
+			m.fail(prop[inf.Kind], "informer-cache-object-mutated", "after the %s reconcile of %v the %s informer cache holds an object that differs from what the informer stored (a controller wrote through a pointer it got from the lister; the change exists in this process only): %s", t.Ctl.Name, t.Item, inf.Kind, d)
+		}
+	}
+}
 func (m *Monitors) beforeTick()        {}
 func (m *Monitors) afterTick()         {}
 
